@@ -1333,6 +1333,13 @@ def _defs_map(fn: ast.AST) -> dict[str, list[ast.expr]]:
             out.setdefault(s.target.id, []).append(s.value)
         elif isinstance(s, ast.AugAssign) and isinstance(s.target, ast.Name):
             out.setdefault(s.target.id, []).append(s.value)
+        elif isinstance(s, ast.Expr) and isinstance(s.value, ast.Call) and isinstance(s.value.func, ast.Attribute) \
+                and s.value.func.attr in ("append", "extend", "add", "update") and isinstance(s.value.func.value, ast.Name) and s.value.args:
+            out.setdefault(s.value.func.value.id, []).append(s.value.args[0])
+        elif isinstance(s, ast.For):
+            for x in ast.walk(s.target):
+                if isinstance(x, ast.Name):
+                    out.setdefault(x.id, []).append(s.iter)
     return out
 
 
@@ -1452,24 +1459,70 @@ def _check_intersect(ctx: Ctx, mod) -> None:
     ctx.check("R6", r3 == I, mod, q, rets[0], f"the fourth result must be the per-column hit list of the query itself (`{I}`); it is `{r3}`",
               construct="fourth result is the query result")
 
+    def _gen_roles(target, it):
+        """(index variable, element variable) of a loop/comprehension over the hit list I"""
+        if _is_np(it, "enumerate") and it.args and u(it.args[0]) == I and isinstance(target, ast.Tuple) and len(target.elts) == 2:
+            return u(target.elts[0]), u(target.elts[1])
+        if _is_np(it, "range") and len(it.args) == 1 and u(it.args[0]) in (f"len({I})", f"{A}.shape[-1]", f"{A}.shape[1]") \
+                and isinstance(target, ast.Name):
+            return target.id, None
+        if u(it) == I and isinstance(target, ast.Name):
+            return None, target.id
+        return None, None
+    idx_vars, elem_vars = set(), set()
+    for st in walk_local(fn):
+        if isinstance(st, ast.For):
+            iv, ev_ = _gen_roles(st.target, st.iter)
+            if iv:
+                idx_vars.add(iv)
+            if ev_:
+                elem_vars.add(ev_)
+
+    def tags_of(e: ast.expr) -> set[str]:
+        tags = set()
+        bound_i, bound_e = set(idx_vars), set(elem_vars)
+        for c in ast.walk(e):
+            if isinstance(c, (ast.ListComp, ast.GeneratorExp, ast.SetComp)):
+                li, le = set(), set()
+                for g_ in c.generators:
+                    iv, ev_ = _gen_roles(g_.target, g_.iter)
+                    if iv:
+                        li.add(iv)
+                    if ev_:
+                        le.add(ev_)
+                for g_ in c.generators:  # `for j in hits`: variables drawn from one hit list are contents
+                    if names_in(g_.iter) & le:
+                        le |= {x.id for x in ast.walk(g_.target) if isinstance(x, ast.Name)}
+                en = names_in(c.elt)
+                if en & li and not any(isinstance(x, ast.Subscript) and u(x.value) == I for x in ast.walk(c.elt)):
+                    tags.add("pos")
+                if en & le or any(isinstance(x, ast.Subscript) and u(x.value) == I for x in ast.walk(c.elt)):
+                    tags.add("con" if not (isinstance(c.elt, ast.Compare) or _is_np(c.elt, "len") or _is_np(c.elt, "bool")) else "len")
+            if isinstance(c, ast.Call) and call_name(c) in ("flatnonzero", "nonzero", "where", "argwhere"):
+                tags.add("pos")
+            if isinstance(c, ast.Call) and call_name(c) in ("hstack", "concatenate", "from_iterable", "chain") and I in names_in(c):
+                tags.add("con")
+        top = {n.id for n in ast.walk(e) if isinstance(n, ast.Name)}
+        if isinstance(e, ast.Name) and e.id in bound_i:
+            tags.add("pos")
+        if isinstance(e, ast.Name) and e.id in bound_e:
+            tags.add("con")
+        return tags
+
     def kind(name: str) -> str:
         """'positions' (indices of a-columns with a hit), 'contents' (b-column numbers found), 'mixed', 'none'"""
         clo = _closure(defs, name)
         if I not in clo:
             return "none"
-        pos = con = False
+        tags = set()
         for n in clo - {I}:
             for e in defs.get(n, []):
-                txt = u(e)
-                if I not in names_in(e):
-                    continue
-                if f"range(len({I}))" in txt or f"enumerate({I})" in txt or any(
-                        isinstance(c, ast.Call) and call_name(c) in ("flatnonzero", "nonzero", "where", "argwhere") for c in ast.walk(e)):
-                    pos = True
-                elif any(isinstance(c, ast.Call) and call_name(c) in ("hstack", "concatenate", "from_iterable", "chain") for c in ast.walk(e)) \
-                        or (isinstance(e, (ast.ListComp, ast.GeneratorExp)) and len(e.generators) == 2):
-                    con = True
-        return "positions" if pos and not con else ("contents" if con and not pos else ("mixed" if pos and con else "none"))
+                tags |= tags_of(e)
+        tags.discard("len")
+        if "pos" in tags and "con" in tags:
+            # a flatnonzero over a list of lengths is still positions
+            return "mixed"
+        return "positions" if "pos" in tags else ("contents" if "con" in tags else "none")
     k0, k1 = kind(r0), kind(r1)
     if "none" in (k0, k1) or "mixed" in (k0, k1):
         raise Undecided(f"{q}: cannot classify how `{r0}` / `{r1}` are derived from the query result `{I}` ({k0}, {k1})")
@@ -1479,18 +1532,20 @@ def _check_intersect(ctx: Ctx, mod) -> None:
     ctx.check("R6", k1 == "contents", mod, q, rets[0],
               f"the second result lists the columns of `{B}` that were hit (contents of the hit list); `{r1}` is derived as {k1}",
               construct=f"second result derived as {k1}")
-    # polarity of the non-emptiness filter
-    for n in _closure(defs, r0) - {I}:
-        for e in defs.get(n, []):
-            for c in [c for c in ast.walk(e) if isinstance(c, ast.Compare) and len(c.ops) == 1 and isinstance(c.left, ast.Call)
-                      and call_name(c.left) == "len" and I in names_in(c.left) and isinstance(c.comparators[0], ast.Constant)]:
-                if isinstance(c.left.args[0], ast.Name) and c.left.args[0].id == I:
-                    continue  # len(intersection) > 0: emptiness of the whole result
-                k = c.comparators[0].value
-                op = c.ops[0]
-                ok = (isinstance(op, ast.Gt) and k == 0) or (isinstance(op, ast.GtE) and k == 1) or (isinstance(op, ast.NotEq) and k == 0)
-                ctx.check("R6", ok, mod, q, c, f"a column of `{A}` is a member iff its hit list is NON-empty; the filter is `{u(c)}`",
-                          construct=f"hit filter {_rename(c, {I: 'HITS'})}")
+    # polarity of the non-emptiness filter: every `len(<one hit list>) <op> k` in the function
+    for c in [c for c in walk_local(fn) if isinstance(c, ast.Compare) and len(c.ops) == 1 and isinstance(c.left, ast.Call)
+              and call_name(c.left) == "len" and c.left.args and isinstance(c.comparators[0], ast.Constant)]:
+        arg = c.left.args[0]
+        is_elem = (isinstance(arg, ast.Subscript) and u(arg.value) == I) or (isinstance(arg, ast.Name) and arg.id != I and (
+            arg.id in elem_vars or any(arg.id == _gen_roles(g_.target, g_.iter)[1] for comp in walk_local(fn)
+                                       if isinstance(comp, (ast.ListComp, ast.GeneratorExp)) for g_ in comp.generators)))
+        if not is_elem:
+            continue
+        k = c.comparators[0].value
+        op = c.ops[0]
+        ok = (isinstance(op, ast.Gt) and k == 0) or (isinstance(op, ast.GtE) and k == 1) or (isinstance(op, ast.NotEq) and k == 0)
+        ctx.check("R6", ok, mod, q, c, f"a column of `{A}` is a member iff its hit list is NON-empty; the filter is `{u(c)}`",
+                  construct=f"hit filter len(HITS[i]) {type(op).__name__} {k}")
     # the membership mask
     mdefs = defs.get(r2, [])
     alloc = [e for e in mdefs if isinstance(e, ast.Call) and call_name(e) in ("zeros", "full", "zeros_like")]
